@@ -140,8 +140,51 @@ def r07b(ctx, P):
                "longer means (any should) AND NOT (must_not)", site.loc())
 
 
+def r07c(ctx, P):
+    rid = "R07.c"
+    import re
+    ctx.rule(rid, "AGREE (one case folding for keyword terms): keyword values are not analysed; their term keys are folded by plain string "
+                  "functions on both sides. The set of case-folding functions (to_ascii_lowercase / to_lowercase / to_uppercase / ...) "
+                  "called outside the analyzers on the WRITE path (everything under SegmentWriter::write_segment_stream) equals the set "
+                  "called on the QUERY-EXPANSION path (expand_term_groups, expand_phrase_fields, completion_inputs and what they reach). "
+                  "A side that folds differently stores or looks up some values under a key the other side cannot produce (non-ASCII "
+                  "upper case), so an indexed word no longer finds its document")
+    FOLD = re.compile(r"::(to_ascii_lowercase|to_lowercase|to_uppercase|to_ascii_uppercase|make_ascii_lowercase|make_ascii_uppercase)$")
+
+    def folds(roots):
+        out = {}
+        scope = set()
+        for r in roots:
+            if r in P.fns:
+                scope |= {r} | {x for x in P.reach(r) if x in P.fns}
+        for q in scope:
+            f = P.fns[q]
+            if f.crate != "searchlite_core" or is_test_or_bench(f) or "::analysis::" in q:
+                continue
+            for b, t in f.calls():
+                c = callee_of(t)
+                if FOLD.search(c):
+                    out.setdefault(c.rsplit("::", 1)[1], []).append(Site(f, b))
+        return out
+    W = folds(["searchlite_core::index::segment::SegmentWriter::<'a>::write_segment_stream"])
+    Q = folds(["searchlite_core::api::reader::expand_term_groups", "searchlite_core::api::reader::expand_phrase_fields",
+               N.READER + "::completion_inputs"])
+    ctx.floor(rid + ".write", sum(len(v) for v in W.values()), 1, "case-folding calls on the write path (keyword term keys)")
+    ctx.floor(rid + ".query", sum(len(v) for v in Q.values()), 3, "case-folding calls on the query-expansion path")
+    ok = set(W) == set(Q)
+    only_q = sorted(set(Q) - set(W))
+    only_w = sorted(set(W) - set(Q))
+    where = (Q[only_q[0]][0] if only_q else W[only_w[0]][0] if only_w else None)
+    ctx.ob(rid, "%s:keyword-case-folding-agrees" % rid, ok,
+           "write path and query expansion fold keyword terms with the same function(s): %s" % sorted(W) if ok else
+           "keyword terms are folded with %s when written but with %s when a query is expanded (%s): values on which these differ are "
+           "indexed under a key no query produces" % (sorted(W), sorted(Q), where.loc() if where else "?"),
+           where.loc() if where else None)
+
+
 def run(ctx, progs):
     P = progs.get("default")
     r07a(ctx, P)
     r07b(ctx, P)
+    r07c(ctx, P)
     ctx.assumptions += ["everything else in the statement (boolean semantics, analyzers, phrase slop, expansion caps) is runtime and not decided"]
